@@ -44,34 +44,25 @@ Proof. reflexivity. Qed.
 Lemma delete_leaves_marker : cache_delete_leaves_marker = true.
 Proof. reflexivity. Qed.
 
-(* Full statement: for EVERY schedule, clock advances (process PC) between any two steps included:
-     forall init prog readers schedule obs,
-       sch_run (sch_init init prog readers) schedule = Some obs -> no_stale [(init, 0)] 0 prog false [] schedule obs = true.
-   The code as it is refutes it (finding C07-EXPDEL, open; no_stale_if_expired_entry_dropped_refuted below):
-   a TTLGet that finds an expired entry drops it, and with it the guard of a read in flight.
-   Proved (1) for the code as it is (all flags read from the source) for the schedules during which the clock
-   does not advance - exactly what excludes the witness; (2) for every schedule, clock advances included, for
-   the variant in which the expired entry leaves a "not found" marker (repair proposed in
-   findings/C07/EXPDEL.diff; the flag cache_expired_leaves_marker says which variant the source is). *)
-Theorem no_stale_read_after_completed_write_partial :
+(* a TTLGet that finds an expired entry caches the absence of the row instead of dropping the entry (repaired
+   finding C07-EXPDEL) *)
+Lemma expired_entry_leaves_marker : cache_expired_leaves_marker = true.
+Proof. reflexivity. Qed.
+
+(* every init, writer program (values of any size, InsertIfNotExists / CompareAndSwap with a TTL: WInsT / WCasT),
+   reader programs and schedule - clock advances (process PC) between any two steps included: a read that starts
+   when c writes have completed returns what the version left by some write j >= c shows: its content, or "not
+   found" once it has expired. *)
+Theorem no_stale_read_after_completed_write :
   forall (init : option N) (prog : list wop) (readers : list (list rop)) (schedule : list pid) obs,
-  ~ In PC schedule ->
   sch_run (sch_init init prog readers) schedule = Some obs ->
   no_stale [(init, 0%N)] 0 prog false [] schedule obs = true.
 Proof.
-  exact (fun init prog readers ps obs Hc =>
-           no_stale_no_clock_proved ps _ [] obs false (Inv_init init prog readers) eq_refl Hc).
+  exact (fun init prog readers ps obs => no_stale_after_complete_proved ps _ [] obs false (Inv_init init prog readers)).
 Qed.
 
-Theorem no_stale_with_clock_steps_if_expired_entry_leaves_marker :
-  forall (init : option N) (prog : list wop) (readers : list (list rop)) (schedule : list pid) obs,
-  sch_run_gen true true true (sch_init init prog readers) schedule = Some obs ->
-  no_stale [(init, 0%N)] 0 prog false [] schedule obs = true.
-Proof.
-  exact (fun init prog readers ps obs => no_stale_marker_proved ps _ [] obs false (Inv_init init prog readers)).
-Qed.
-
-(* C07-EXPDEL: the row holds 0 and is not cached; reader 0 (Get) fetches 0 from the storage; the writer's
+(* The marker for an expired entry is necessary (C07-EXPDEL, the code before the repair dropped the entry): *)
+(* the row holds 0 and is not cached; reader 0 (Get) fetches 0 from the storage; the writer's
    CompareAndSwap to 1 with a TTL completes; the clock advances past the TTL; reader 1 (TTLGet) finds the expired
    entry, answers "not found" and drops it; reader 0 resumes, finds nothing cached and fills 0; reader 2 (Get),
    started after the write completed, gets 0 - older than the completed write - and so does every later read. *)
@@ -82,9 +73,9 @@ Proof.
   exists [PR 0; PR 0; PW; PW; PC; PR 1; PR 0; PR 2]. eexists. split; [vm_compute; reflexivity|vm_compute; reflexivity].
 Qed.
 
-(* the same schedule with the marker: reader 2 is answered "not found", which is what version 1 shows once expired *)
-Example expired_entry_schedule_fresh_with_marker :
-  sch_run_gen true true true (sch_init (Some 0%N) [WCasT 1%N] [[OpGet]; [OpTTLGet]; [OpGet]])
+(* the same schedule on the code as it is: reader 2 is answered "not found", which is what version 1 shows once expired *)
+Example expired_entry_schedule_now_fresh :
+  sch_run (sch_init (Some 0%N) [WCasT 1%N] [[OpGet]; [OpTTLGet]; [OpGet]])
               [PR 0; PR 0; PW; PW; PC; PR 1; PR 0; PR 2]
   = Some [SGetStart 0; SNone; SNone; SWDone; SClock; SGetHit 1 None; SGetDone (Some 0%N); SGetHit 1 None].
 Proof. vm_compute. reflexivity. Qed.
@@ -259,12 +250,12 @@ Example no_stale_nonvacuous :
               /\ In (SGetHit 1 (Some 1%N)) obs /\ In (SGetDone None) obs.
 Proof. eexists. split; [vm_compute; reflexivity|]. split; cbn; tauto. Qed.
 
-(* TTL writes and clock advances, marker variant: an insert with a TTL, the clock, a TTLGet on the expired entry
+(* TTL writes and clock advances: an insert with a TTL, the clock, a TTLGet on the expired entry
    (answered "not found", marker left), a second insert with a TTL, a Get hit, the clock, a plain Get that still
    hits the (expired) entry and a TTLGet that does not *)
 Example no_stale_clock_nonvacuous :
   let sched := [PR 0; PR 0; PW; PW; PR 0; PC; PR 1; PW; PW; PR 1; PC; PR 1; PR 2] in
-  exists obs, sch_run_gen true true true (sch_init None [WInsT 1%N; WInsT 2%N] [[OpGet]; [OpTTLGet; OpGet; OpGet]; [OpTTLGet]]) sched = Some obs
+  exists obs, sch_run (sch_init None [WInsT 1%N; WInsT 2%N] [[OpGet]; [OpTTLGet; OpGet; OpGet]; [OpTTLGet]]) sched = Some obs
               /\ no_stale [(None, 0%N)] 0 [WInsT 1%N; WInsT 2%N] false [] sched obs = true
               /\ obs = [SGetStart 0; SNone; SNone; SWDone; SGetDone None; SClock; SGetHit 1 None; SNone; SWDone;
                         SGetHit 2 (Some 2%N); SClock; SGetHit 2 (Some 2%N); SGetHit 2 None].
@@ -307,8 +298,7 @@ Proof.
   - vm_compute. reflexivity.
 Qed.
 
-Print Assumptions no_stale_read_after_completed_write_partial.
-Print Assumptions no_stale_with_clock_steps_if_expired_entry_leaves_marker.
+Print Assumptions no_stale_read_after_completed_write.
 Print Assumptions cache_transparent.
 Print Assumptions cache_transparent_failed_writes_and_handles.
 Print Assumptions cacheable_is_mark_fits.
